@@ -1136,6 +1136,28 @@ def slice_split_last(I, a, n):
     return SOME([Ref(s.items, s.hi - 1), SliceRef(s.items, s.lo, s.hi - 1)])
 
 
+@model(r"^core::slice::split$")
+def slice_split(I, a, n):
+    """[T]::split(pred): sub-slices separated by the elements matching pred"""
+    from .models_iter import ListIt
+    s = vec_as_slice(I, a, n)
+    out, start = [], s.lo
+    for k in range(s.lo, s.hi):
+        if I.branch_bool(I.callf(a[1], [Ref(s.items, k)])):
+            out.append(SliceRef(s.items, start, k))
+            start = k + 1
+    out.append(SliceRef(s.items, start, s.hi))
+    return ListIt(out, False)
+
+
+@model(r"^std::vec::from_elem$|^alloc::vec::from_elem$")
+def vec_from_elem(I, a, n):
+    cnt = a[1]
+    if is_sym(cnt):
+        cnt = I.concretize_int(cnt, 0, 4096, "vec![x; n] length")
+    return RVec([clone_val(I, a[0]) for _ in range(cnt)], text=("u8" in n))
+
+
 @model(r"^core::slice::swap$")
 def slice_swap(I, a, n):
     s = vec_as_slice(I, a, n)
